@@ -59,9 +59,15 @@ def ring_block(name, nrexcl=1):
     return BlockSpec(name, atoms, inters, nrexcl)
 
 
-def multi_res_block(name="MUL", nrexcl=1, first_resid=1):
-    """a block that spans two residues (used through the from_itp label); its own residue numbers start at `first_resid`"""
+def multi_res_block(name="MUL", nrexcl=1, first_resid=1, interleaved=False):
+    """a block that spans two residues (used through the from_itp label); its own residue numbers start at `first_resid`;
+    interleaved: the atoms of the first residue are not listed next to each other (m1, m3, m2)"""
     f = first_resid
+    if interleaved:
+        atoms = [("m1", "TM1", 1, 0.0, 20.0, f, "MA"), ("m3", "TM3", 2, -0.5, 22.0, f + 1, "MB"), ("m2", "TM2", 1, 0.5, 21.0, f, "MA")]
+        inters = [("bonds", (0, 2), ["1", "0.25", "5000"], {}), ("bonds", (2, 1), ["1", "0.26", "6000"], {}),
+                  ("angles", (0, 2, 1), ["2", "100", "33"], {})]
+        return BlockSpec(name, atoms, inters, nrexcl)
     atoms = [("m1", "TM1", 1, 0.0, 20.0, f, "MA"), ("m2", "TM2", 1, 0.5, 21.0, f, "MA"), ("m3", "TM3", 2, -0.5, 22.0, f + 1, "MB")]
     inters = [("bonds", (0, 1), ["1", "0.25", "5000"], {}), ("bonds", (1, 2), ["1", "0.26", "6000"], {}),
               ("angles", (0, 1, 2), ["2", "100", "33"], {})]
